@@ -77,7 +77,7 @@ def fmt_unit(ns):
     if ns == 0:
         return ""
     units = ["us", "ms", " s", " m", " h"]
-    limit = [1000, 1000, 1000, 60, 24, 1 << 31]
+    limit = [1000, 1000, 1000, 60, 60, 1 << 31]
     delta, small = ns, 0
     idx = 0
     for idx in range(len(units)):
